@@ -3,7 +3,7 @@ LEVEL = "proof"
 LEAN_MODULES = ["CifModel.Props.C07", "CifModel.Props.ReviewC07"]
 REQUIRED = ["CifModel.C07_serialize_roundtrip", "CifModel.C07_serialize_buffer", "CifModel.C07_buf_write_terminates",
             "CifModel.C07_buf_write_ok", "CifModel.C07_default_cap_ok", "CifModel.C07_columns_roundtrip",
-            "CifModel.C07_schema_link", "CifModel.C07_numb_in_list", "CifModel.C07_numb_in_list_full", "CifModel.C07_numb_produced_consistent",
+            "CifModel.C07_schema_link", "CifModel.C07_numb_in_list", "CifModel.C07_numb_in_list_full", "CifModel.C07_constructible_wf", "CifModel.C07_constructible_columns", "CifModel.C07_numb_produced_consistent",
             "CifModel.C07_constructible_roundtrip", "CifModel.C07_store_read", "CifModel.C07_store_read_loop_routes",
             "CifModel.C07_store_read_delivers_cells", "CifModel.C07_numb_in_list_partial", "CifModel.C07_numb_list_roundtrip",
             "CifModel.C07_cex_buf_write_pinned", "CifModel.C07_cex_buf_write_cap1", "CifModel.C07_cex_empty_digits"]
